@@ -45,9 +45,9 @@ pub fn load_findings(property: &str) -> Vec<Finding> {
     let v: Value = serde_json::from_str(&txt).expect("known_findings.json must parse");
     let mut out = vec![];
     for f in v["findings"].as_array().cloned().unwrap_or_default() {
-        if f["property"].as_str() == Some(property) {
+        if f["property"].as_str() == Some(property) || (property == "C11" && f["property"].as_str() == Some("C12")) {
             out.push(Finding {
-                property: property.to_string(),
+                property: f["property"].as_str().unwrap_or("").to_string(),
                 id: f["id"].as_str().unwrap_or("").to_string(),
                 what: f["what"].as_str().unwrap_or("").to_string(),
             });
@@ -160,6 +160,7 @@ impl Report {
             cov.insert("samples".into(), json!(g.samples));
         }
         cov.insert("known_findings_reproduced".into(), json!(g.known));
+        cov.insert("violation_kinds".into(), json!(g.printed_violation_kinds));
         cov.insert(
             "known_findings_listed_not_reproduced".into(),
             json!(g.findings.iter().filter(|f| !g.known.contains_key(&f.id)).map(|f| f.id.clone()).collect::<Vec<_>>()),
